@@ -39,12 +39,23 @@ type Case13 struct {
 	Ref      B      `json:"ref"`
 	Touch    bool   `json:"touch"` // A.SearchParams() was called before resolving / cloning
 	Ops      []Op13 `json:"ops"`
+	Report   bool   `json:"report,omitempty"` // parse with a validation-error-reporting parser (ValidationErrors is part of the snapshot)
 }
 
 type snap13 struct {
 	obs    spec.Obs
 	frag   string
 	params string // the list read through getters, "" if not read
+	verrs  string // ValidationErrors(), rendered
+}
+
+func renderErrors(u *url.Url) string {
+	var sb strings.Builder
+	for _, e := range u.ValidationErrors() {
+		sb.WriteString(e.Error())
+		sb.WriteString(" ; ")
+	}
+	return sb.String()
 }
 
 // paramsView reads the list through Has/Get/GetAll for the names of the form-urlencoded parse of the
@@ -71,7 +82,7 @@ func paramsView(u *url.Url, names []string) string {
 }
 
 func takeSnap(u *url.Url, withParams bool, names []string) snap13 {
-	s := snap13{obs: ObsOf(u), frag: u.Fragment()}
+	s := snap13{obs: ObsOf(u), frag: u.Fragment(), verrs: renderErrors(u)}
 	if withParams {
 		s.params = paramsView(u, names)
 	}
@@ -88,6 +99,9 @@ func diffSnap(a, b snap13) string {
 	if a.params != b.params {
 		return fmt.Sprintf("search parameters: %s vs %s", a.params, b.params)
 	}
+	if a.verrs != b.verrs {
+		return fmt.Sprintf("recorded validation errors: %q vs %q", a.verrs, b.verrs)
+	}
 	return ""
 }
 
@@ -103,8 +117,13 @@ func apply13(u *url.Url, o Op13) {
 }
 
 func Check13(c Case13, r *core.Rec) {
+	parse := url.Parse
+	if c.Report {
+		parse = parserR.Parse
+		r.Class("reporting-parser")
+	}
 	mk := func() (a, b *url.Url, ok bool) {
-		a, err := url.Parse(string(c.URL))
+		a, err := parse(string(c.URL))
 		if err != nil || a == nil {
 			return nil, nil, false
 		}
@@ -122,7 +141,7 @@ func Check13(c Case13, r *core.Rec) {
 		return a, b, true
 	}
 	// (i) resolving / cloning does not change anything observable about A
-	pristine, err := url.Parse(string(c.URL))
+	pristine, err := parse(string(c.URL))
 	if err != nil || pristine == nil {
 		r.Vacuous()
 		return
@@ -155,17 +174,24 @@ func Check13(c Case13, r *core.Rec) {
 		r.Class("lazy-state-absent")
 	}
 	// isolated twins: fresh values with the same history, never sharing anything with the other side
-	twinA, _ := url.Parse(string(c.URL))
+	twinA, _ := parse(string(c.URL))
 	var twinB *url.Url
 	if c.Scenario == "resolve" {
-		tb, _ := url.Parse(string(c.URL))
+		tb, _ := parse(string(c.URL))
 		twinB, err = tb.Parse(string(c.Ref))
 		if err != nil || twinB == nil {
 			r.Failf("resolving %s against %s succeeds once and fails the second time", quote(string(c.Ref)), quote(string(c.URL)))
 			return
 		}
 	} else {
-		twinB, _ = url.Parse(string(c.URL))
+		// the library's Clone starts with an empty list of recorded validation errors; the twin of a
+		// clone is therefore a clone of a value nobody else ever touches
+		tk, _ := parse(string(c.URL))
+		if c.Report {
+			twinB = tk.Clone()
+		} else {
+			twinB = tk // default parser: nothing is recorded, a fresh parse is the stronger twin
+		}
 	}
 	sides := [2]*url.Url{A, B2}
 	twins := [2]*url.Url{twinA, twinB}
@@ -242,6 +268,11 @@ func Gen13(t *rapid.T) Case13 {
 		c.Ref = B(gen.Ref(t, "ref", gen.SchemeOf(string(c.URL))))
 	}
 	c.Touch = rapid.IntRange(0, 1).Draw(t, "touch") == 1
+	c.Report = rapid.IntRange(0, 3).Draw(t, "report") == 0
+	if c.Report && rapid.IntRange(0, 1).Draw(t, "noisy") == 0 {
+		// a start URL that already carries 1..7 recorded validation errors
+		c.URL = B("http://example.com/" + strings.Repeat("a b ", rapid.IntRange(1, 7).Draw(t, "nerrs")) + "?q#f")
+	}
 	n := rapid.IntRange(1, 10).Draw(t, "nops")
 	spOps := []string{"append", "append", "delete", "set", "sort", "sortabs", "get", "has"}
 	for i := 0; i < n; i++ {
